@@ -356,6 +356,13 @@ func TestReplay(t *testing.T) {
 		}
 		c.Case()
 		runProgram(t, c, p, true)
+	case "deadline-replaced":
+		var rc rescueCase
+		if err := json.Unmarshal(doc.Data, &rc); err != nil {
+			t.Fatalf("bad replay data: %v", err)
+		}
+		c.Case()
+		runRescue(t, c, rc)
 	case "errors":
 		var p errProgram
 		if err := json.Unmarshal(doc.Data, &p); err != nil {
